@@ -56,6 +56,7 @@ func dev(args []string) {
 	timeout := fs.Duration("timeout", 10*time.Second, "per-obligation timeout")
 	show := fs.Bool("show", false, "print SMT of failing obligations")
 	lemmas := fs.Bool("lemmas", true, "also check lemmas")
+	verbose := fs.Bool("v", false, "list discharged groups too")
 	fs.Parse(args)
 	t0 := time.Now()
 	pats := strings.Split(*pkgs, ",")
@@ -147,23 +148,57 @@ func dev(args []string) {
 			coverOK[groupOf(r.Obl.Name)] = true
 		}
 	}
+	type agg struct {
+		n, bad int
+		status  map[string]int
+		first   *vc.SolveResult
+		maxs    float64
+	}
+	groups := map[string]*agg{}
+	var order []string
 	for _, r := range res {
 		if r.Obl.Cover && coverOK[groupOf(r.Obl.Name)] {
 			continue
+		}
+		g := groupOf(r.Obl.Name)
+		a := groups[g]
+		if a == nil {
+			a = &agg{status: map[string]int{}}
+			groups[g] = a
+			order = append(order, g)
+		}
+		a.n++
+		if r.Seconds > a.maxs {
+			a.maxs = r.Seconds
 		}
 		want := "unsat"
 		if r.Obl.Cover {
 			want = "sat"
 		}
-		mark := "ok  "
 		if r.Status != want {
-			mark = "FAIL"
+			a.bad++
 			bad++
+			a.status[r.Status]++
+			if a.first == nil {
+				a.first = r
+			}
 		}
-		fmt.Printf("%s %-8s %-7s %6.2fs  %s   [%s]\n", mark, r.Status, r.Backend, r.Seconds, r.Obl.Name, r.Obl.Src)
-		if r.Status != want && *show {
-			m, f := ex.ModelFor(r.Obl, dir, *timeout)
-			fmt.Println("   file:", f)
+	}
+	for _, g := range order {
+		a := groups[g]
+		if a.bad == 0 {
+			if *verbose {
+				fmt.Printf("ok   %-60s %d obligations, max %.2fs\n", g, a.n, a.maxs)
+			}
+			continue
+		}
+		fmt.Printf("FAIL %s: %d of %d not as expected %v  [%s]\n", g, a.bad, a.n, a.status, truncateLines(a.first.Obl.Src, 1))
+		if *show {
+			m, f := ex.ModelFor(a.first.Obl, dir, *timeout)
+			fmt.Println("   first failing:", a.first.Obl.Name, "file:", f)
+			if m == "" {
+				fmt.Println(indent(truncateLines(a.first.Output, 12)))
+			}
 			fmt.Println(indent(truncateLines(m, 60)))
 		}
 	}
